@@ -193,7 +193,7 @@ impl Sim {
         let cfg = cfg.clone();
         let n = cfg.clients;
         let slots = cfg.slots;
-        let mut server = make_app(&cfg, false);
+        let mut server = make_app_role(&cfg, false, if cfg.split_plugins { Role::Server } else { Role::Both });
         for _ in 0..cfg.entity_offset {
             server.world_mut().spawn_empty();
         }
@@ -203,7 +203,7 @@ impl Sim {
         let mut clients = Vec::new();
         for i in 0..n {
             let mismatch = cfg.auth == 2 && cfg.mismatch & (1 << i) != 0;
-            let mut app = make_app(&cfg, mismatch);
+            let mut app = make_app_role(&cfg, mismatch, if cfg.split_plugins { Role::Client } else { Role::Both });
             if cfg.entity_offset > 0 {
                 for _ in 0..(cfg.entity_offset as usize + 37 * (i + 1)) % 8300 {
                     app.world_mut().spawn_empty();
